@@ -69,6 +69,15 @@ def fiber_cases(ctx):
         b = {"k": "F", "e": [[c, {"k": "L", "v": ctx.rng.choice([1, 2])}] for c in range(nc + 2) if ctx.rng.random() < 0.2]}
         for op in ("add_ff", "mul_ff", "iadd_ff", "imul_ff"):
             out.append({"kind": "fiber", "op": op, "a": a, "b": b, "shape": nc + 3})
+    # two-level fibers: + and * recurse into the sub-fibers
+    from .c05 import rand_tree
+    for _ in range(400 if ctx.quick else 6000):
+        a = rand_tree(ctx.rng, 3, 2, pz=0.15, pabs=0.3)
+        b = rand_tree(ctx.rng, 3, 2, pz=0.15, pabs=0.3)
+        if not a["e"] or not b["e"]:
+            continue              # an empty unowned fiber cannot know that it has two levels
+        for op in ("add_ff", "mul_ff", "iadd_ff", "imul_ff"):
+            out.append({"kind": "fiber2", "op": op, "a": a, "b": b, "shape": 4})
     return out
 
 
@@ -76,6 +85,13 @@ def where(c):
     if c["kind"] == "scalar":
         return f"{c['lk']}-{c['rk']}"
     tag = ""
+    if c["kind"] == "fiber2":
+        def empty(p):
+            return p["v"] == 0 if p["k"] == "L" else all(empty(q) for _, q in p["e"])
+        tb = {x for x, p in c["b"]["e"] if not empty(p)}
+        if c["op"] == "imul_ff" and any(x not in tb for x, p in c["a"]["e"]):
+            tag = ":a-outside-b"
+        return "fiber2" + tag
     if c["op"] == "imul_ff":
         # class of the known finding on a *= b: a stores an element at a coordinate where b has nothing (it should be dropped, it is kept)
         d = c.get("d", 0)
